@@ -94,7 +94,7 @@ def run_case(ctx, case, variant):
         runs = end['runs']
     committed = sorted(i + 1 for i, ws in enumerate(per) if ws and ws <= dump)
     partial = [i + 1 for i, ws in enumerate(per) if ws & dump and not ws <= dump]
-    exc = {'ok': 'none', 'allowed': 'allowed', 'retryable': 'retryable', 'other': 'other', 'commitexc': 'CommitException'}.get(
+    exc = {'ok': 'none', 'allowed': 'allowed', 'retryable': 'retryable', 'other': 'other', 'base': 'base', 'commitexc': 'CommitException'}.get(
         end['result'], end['result'])
     return dict(runs=runs, committed=committed, exc=exc, partial=partial), o
 
@@ -129,6 +129,77 @@ def e1(ctx, table):
 
 def diff_fields(a, b):
     return '+'.join(k for k in sorted(a) if a[k] != b[k])
+
+
+# ---------------------------------------------------------------------------------------------------------------------
+# generator sessions that write before suspending, with another session of the same thread in between
+# ---------------------------------------------------------------------------------------------------------------------
+def gen_cases(ctx, gtable):
+    """Returns (#executions, [(desc, trace)] of the runs without an interleaved session - those are valid PonyTxn traces)."""
+    n = 0
+    traces = []
+    for row in sorted(gtable, key=lambda r: (r['in']['imm'], r['in']['end1'], r['in']['final'])):
+        c, exp = row['in'], row['out']
+        for interleave in (False, True):
+            seg1 = [['create']] + ([[c['end1']]] if c['end1'] != 'none' else [])
+            sess = dict(form='gen', kind='imm' if c['imm'] else 'opt',
+                        attempts=[dict(segments=[seg1, [['raw']]], end='return' if c['final'] == 'return' else c['final'])])
+            env = txnlib.Env(ctx.scratch)
+            rec = env.rec
+            env.wmap = {}
+            inter = {'ran': False, 'w': set()}
+            if interleave:
+                def between(env=env, inter=inter):
+                    before = len(env.rec.events)
+                    env.run_session(dict(form='cm', kind='opt', attempts=[dict(ops=[['create']], end='return')]))
+                    inter['ran'] = True
+                    inter['w'] = {e['w'] for e in env.rec.events[before:] if e['ev'] == 'Body' and e['op'] == 'write'}
+                sess['between'] = between
+            box = {}
+            import threading
+
+            def work():
+                rec.set_actor(1)
+                rec.armed = True
+                box['end'] = env.run_session(sess)
+                rec.armed = False
+            t = threading.Thread(target=work)
+            t.start()
+            t.join()
+            dump = env.dump()
+            rec.emit('Dump', a=1, dump=sorted(dump))
+            n += 1
+            evs = rec.events
+            # writes of the generator body per segment (the interleaved session's are in inter['w'])
+            segw = [set(), set()]
+            k = 0
+            for e in evs:
+                if e['ev'] == 'Body' and e['op'] == 'yield':
+                    k = 1
+                elif e['ev'] == 'Body' and e['op'] in ('write', 'rawwrite') and e['w'] not in inter['w']:
+                    segw[k].add(e['w'])
+            ends = [e for e in evs if e['ev'] == 'End']
+            gen_end = ends[-1]
+            got = dict(suspended=any(e['ev'] == 'Resume' for e in evs),
+                       committed=sorted(i + 1 for i, ws in enumerate(segw) if ws and ws <= dump),
+                       partial=[i + 1 for i, ws in enumerate(segw) if ws & dump and not ws <= dump],
+                       exc={'ok': 'none'}.get(gen_end['result'], gen_end['result']),
+                       other_session_committed=(inter['w'] <= dump) if inter['ran'] else None)
+            want = dict(suspended=exp['suspended'], committed=sorted(exp['committed']), partial=[], exc=exp['exc'],
+                        other_session_committed=True if (interleave and exp['suspended']) else None)
+            desc = dict(mode='gen', case=c, interleave=interleave)
+            if got != want:
+                ctx.mismatch('C18:gen:imm=%s:%s-before-yield:final=%s:interleaved=%s:%s' % (
+                    c['imm'], c['end1'], c['final'], interleave, diff_fields(got, want)),
+                    'generator db_session %r (another session of the thread while suspended: %r): expected %r, observed %r' % (
+                        c, interleave, want, got), replay=desc)
+            else:
+                ctx.sample({'generator_case': c, 'interleaved_session': interleave, 'outcome': got})
+                if not interleave:
+                    traces.append((desc, dict(nthreads=1, faults=0, fowner=1,
+                                              evs=[{k2: v for k2, v in ev.items() if not k2.startswith('_')} for ev in evs])))
+            env.close()
+    return n, traces
 
 
 # ---------------------------------------------------------------------------------------------------------------------
@@ -257,7 +328,7 @@ def run(ctx):
     install_nested_op()
     # ---- 1. TLC on the specification -----------------------------------------------------------------------------------
     if quick:
-        cfgs = [('sessions', txnlib.mc_cfg(txnlib.ALL_INV, txnlib.ALL_PROP), True)]
+        cfgs = [('sessions', txnlib.mc_cfg(txnlib.ALL_INV, txnlib.ALL_PROP, ExcKinds='{"allowed","retryable","other","base"}'), True)]
     else:
         cfgs = [('sessions', txnlib.mc_cfg(txnlib.ALL_INV, txnlib.ALL_PROP, MaxRetry=2, MaxOps=3, MaxSess=2), True),
                 ('two-faults', txnlib.mc_cfg(txnlib.ALL_INV, txnlib.ALL_PROP, MaxFaults=2, Forms='{"dec"}', MaxRetry=2), False)]
@@ -277,6 +348,8 @@ def run(ctx):
     space, _ = tlc.evaluate('PonyTxnScenarios', ctx.scratch)
     table = space['c18']
     ncases, traces = e1(ctx, table)
+    ngen, gentraces = gen_cases(ctx, space['c18gen'])
+    traces += gentraces
     nopt = option_errors(ctx)
     nglue, gtraces = glue(ctx, table)
     traces += gtraces
@@ -294,13 +367,13 @@ def run(ctx):
         if r['accepted']:
             accepted += 1
             continue
-        ctx.mismatch('C18:trace:%s:%s' % (d.get('case', d).get('form', d.get('fw')), r['inv'][1] if r['inv'] else 'rejected'),
+        ctx.mismatch('C18:trace:%s:%s' % (d.get('case', d).get('form', d.get('fw', d.get('mode'))), r['inv'][1] if r['inv'] else 'rejected'),
                      'trace of %r matched %d of %d events; invariant %r; first unmatched %r' % (
                          d, r['reached'] - 1, r['len'], r['inv'], r['first_unmatched'] and txnlib.brief(r['first_unmatched'])), replay=d)
     ctx.coverage.update({
         'states': states, 'transitions': transitions, 'tlc_runs': mc,
         'traces_validated_against_impl': accepted, 'traces_executed': len(traces),
-        'e1_cases_in_spec_table': len(table), 'e1_executions': ncases, 'option_checks': nopt, 'glue_requests': nglue,
+        'e1_cases_in_spec_table': len(table), 'e1_executions': ncases, 'generator_suspension_cases': ngen, 'option_checks': nopt, 'glue_requests': nglue,
         'trace_spec_states': tstates, 'exhaustive': True,
         'checker_cmd': 'tlc PonyTxn (CommitIffSuccess, RetryBound, AttemptStartsClean, OutermostOnly); tlc PonyTxnScenarios (E1 table); tlc PonyTxnTrace',
     })
@@ -360,6 +433,10 @@ def replay(ctx, rep):
             print('%3d %s' % (i, txnlib.brief(e)))
         print('observed', got, 'expected', exp)
         if not exp or got != dict(runs=exp[0]['runs'], committed=sorted(exp[0]['committed']), exc=exp[0]['exc'], partial=[]):
+            ctx.violations.append('replayed')
+    elif rep['mode'] == 'gen':
+        gen_cases(ctx, [r for r in space['c18gen'] if r['in'] == rep['case']])
+        if ctx.violations:
             ctx.violations.append('replayed')
     elif rep['mode'] == 'glue':
         n, tr = glue(ctx, space['c18'])
